@@ -86,6 +86,7 @@ package router
 //@ pred idsFresh(b *broker) = b.idGen.next < wamp.MaxID && (forall i wamp.ID :: i in b.subscriptions ==> i <= b.idGen.next)
 
 //@ func (b *broker) trySend
+//@   nonblocking
 //@   props C01 C07
 //@   requires b != nil && !isnil(b.log) && sess != nil && !isnil(sess.Peer) && !isnil(msg)
 //@   modifies ghost sendcount
@@ -93,6 +94,7 @@ package router
 //@   ensures [others] forall c mathint :: c != sendChan(sess) ==> sendcount(c) == old(sendcount(c))
 
 //@ func (b *broker) syncDelSubscription
+//@   nonblocking
 //@   on broker
 //@   props C01 C05
 //@   requires brokerInv(b) && sub != nil && sub.id in b.subscriptions && b.subscriptions[sub.id] == sub
@@ -109,6 +111,7 @@ package router
 //@   ensures [members] forall s *wamp.Session :: (s in result.subscribers) <==> (s == subscriber && subscriber != nil)
 
 //@ func (b *broker) syncInitSubscription
+//@   nonblocking
 //@   on broker
 //@   props C01 C20
 //@   requires brokerInv(b) && idsFresh(b)
@@ -132,12 +135,14 @@ package router
 //@   inline
 
 //@ func (b *broker) syncPubSubMeta
+//@   nonblocking
 //@   on broker
 //@   props C18
 //@   requires brokerInv(b)
 //@   modifies ghost sendcount
 
 //@ func (b *broker) syncPubSubCreateMeta
+//@   nonblocking
 //@   on broker
 //@   props C18
 //@   requires brokerInv(b) && sub != nil
@@ -153,6 +158,7 @@ package router
 //@ pred isMember(b *broker, s *wamp.Session, i wamp.ID) = i in b.subscriptions && s in b.subscriptions[i].subscribers
 
 //@ func (b *broker) syncSubscribe
+//@   nonblocking
 //@   on broker
 //@   props C01 C18
 //@   requires brokerInv(b) && idsFresh(b) && brokerIndex(b) && brokerOwn(b)
@@ -174,6 +180,7 @@ package router
 //@   callsite trySend : [reply] is(arg2, *wamp.Subscribed) && arg1 == subscriber && arg2.(*wamp.Subscribed).Request == msg.Request && msg.Topic in subTable(b, match) && arg2.(*wamp.Subscribed).Subscription == subTable(b, match)[msg.Topic].id
 
 //@ func (b *broker) syncUnsubscribe
+//@   nonblocking
 //@   on broker
 //@   props C01 C05 C18
 //@   requires brokerInv(b) && brokerIndex(b) && brokerOwn(b)
@@ -197,6 +204,7 @@ package router
 //@ pred brokerIndexExcept(b *broker, x *wamp.Session) = (forall s *wamp.Session, i wamp.ID :: s != x ==> ((s in b.sessionSubIDSet && i in b.sessionSubIDSet[s]) <==> isMember(b, s, i))) && (forall s *wamp.Session :: s in b.sessionSubIDSet ==> allocated(b.sessionSubIDSet[s]))
 
 //@ func (b *broker) syncRemoveSession
+//@   nonblocking
 //@   on broker
 //@   props C01 C05 C18
 //@   requires brokerInv(b) && brokerIndex(b) && brokerOwn(b)
@@ -247,6 +255,7 @@ package router
 //@     invariant [others-kept] forall k string :: k != "publisher" && k != "publisher_authid" && k != "publisher_authrole" ==> (k in details) == old(k in details) && details[k] == old(details[k])
 
 //@ func prepareEvent
+//@   nonblocking
 //@   props C01 C12
 //@   requires pub != nil && msg != nil && sub != nil
 //@   requires subscriber == nil || !isnil(subscriber.Peer)
@@ -277,6 +286,7 @@ package router
 //@   ensures [def] result <==> dqlen(h.entries) >= h.limit
 
 //@ func (b *broker) syncSaveEvent
+//@   nonblocking
 //@   on broker
 //@   props C20
 //@   requires eventStore != nil && event != nil && eventStore.limit > 0 && dqlen(eventStore.entries) >= 0 && dqlen(eventStore.entries) <= eventStore.limit
@@ -289,6 +299,7 @@ package router
 //@ pred historySaved(b *broker, sub *subscription, msg *wamp.Publish) = sub in b.eventHistoryStore && !("exclude" in msg.Options) && !("eligible" in msg.Options)
 
 //@ func (b *broker) syncPubEvent
+//@   nonblocking
 //@   on broker
 //@   props C01 C12 C20
 //@   requires brokerInv(b) && brokerHist(b) && pub != nil && msg != nil && sub != nil && sub.id in b.subscriptions && b.subscriptions[sub.id] == sub
@@ -312,6 +323,7 @@ package router
 //@ pred registered(b *broker, s *subscription) = s != nil && s.id in b.subscriptions && b.subscriptions[s.id] == s
 
 //@ func (b *broker) syncPublish
+//@   nonblocking
 //@   on broker
 //@   props C01 C20
 //@   requires brokerInv(b) && brokerHist(b) && pub != nil && msg != nil
@@ -424,6 +436,7 @@ package router
 //@ pred wcMatches(d *dealer, w wamp.URI, proc wamp.URI) = w in d.wcProcRegMap && wildcardSpec(string(proc), string(w))
 
 //@ func (d *dealer) syncMatchProcedure
+//@   nonblocking
 //@   on dealer
 //@   props C03 C18
 //@   requires dealerNN(d) && dealerExact(d) && dealerPfx(d) && dealerWc(d)
@@ -473,6 +486,7 @@ package router
 //@ pred isCallee(d *dealer, c *wamp.Session, i wamp.ID) = i in d.registrations && calleeOf(d.registrations[i], c)
 
 //@ func (d *dealer) trySend
+//@   nonblocking
 //@   props C02 C03 C07
 //@   requires d != nil && !isnil(d.log) && sess != nil && !isnil(sess.Peer) && !isnil(msg)
 //@   modifies ghost sendcount
@@ -480,6 +494,7 @@ package router
 //@   ensures [others] forall c mathint :: c != sendChan(sess) ==> sendcount(c) == old(sendcount(c))
 
 //@ func (d *dealer) syncDelCalleeReg
+//@   nonblocking
 //@   on dealer
 //@   props C03 C05
 //@   requires dealerInv(d) && callee != nil
@@ -517,6 +532,7 @@ package router
 //@ pred shareable(r *registration, policy string, callee *wamp.Session) = sharedPolicy(r.policy) && r.policy == policy && !calleeOf(r, callee)
 
 //@ func (d *dealer) syncRegister
+//@   nonblocking
 //@   on dealer
 //@   props C03 C05 C18
 //@   requires dealerInv(d) && dealerIndex(d) && regIdsFresh(d)
@@ -546,6 +562,7 @@ package router
 //@   callsite trySend : [registered] !(old(msg.Procedure in regTable(d, match)) && !old(shareable(regTable(d, match)[msg.Procedure], invokePolicy, callee))) ==> is(arg2, *wamp.Registered) && arg2.(*wamp.Registered).Request == msg.Request && msg.Procedure in regTable(d, match) && arg2.(*wamp.Registered).Registration == regTable(d, match)[msg.Procedure].id
 
 //@ func (d *dealer) syncUnregister
+//@   nonblocking
 //@   on dealer
 //@   props C03 C05 C18
 //@   requires dealerInv(d) && dealerIndex(d)
@@ -615,6 +632,7 @@ package router
 //@ pred callGone(d *dealer, rid requestID, iid requestID) = !(rid in d.calls) && !(rid in d.invocationByCall) && !(iid in d.invocations)
 
 //@ func (d *dealer) syncCancel
+//@   nonblocking
 //@   dyncalls-pure
 //@   on dealer
 //@   props C02 C05 C13
@@ -637,6 +655,7 @@ package router
 //@   sendsite interrupt : [interrupt-content] is(m, *wamp.Interrupt) && m.(*wamp.Interrupt).Request == old(d.invocationByCall[requestID(caller.ID, msg.Request)]).request && "mode" in m.(*wamp.Interrupt).Options && m.(*wamp.Interrupt).Options["mode"] == box(mode) && m.(*wamp.Interrupt).Options["reason"] == box(reason)
 
 //@ func (d *dealer) syncError
+//@   nonblocking
 //@   dyncalls-pure
 //@   on dealer
 //@   props C02 C03 C05
@@ -657,6 +676,7 @@ package router
 //@ pred ownsInvocation(d *dealer, callee *wamp.Session, iid requestID) = iid in d.invocations && d.invocations[iid].callee == callee
 
 //@ func (d *dealer) syncYield
+//@   nonblocking
 //@   dyncalls-pure
 //@   on dealer
 //@   props C02 C03 C13
@@ -692,6 +712,7 @@ package router
 //@ pred isNewCall(d *dealer, caller *wamp.Session, msg *wamp.Call) = !(requestID(caller.ID, msg.Request) in d.invocationByCall)
 
 //@ func (d *dealer) syncCall
+//@   nonblocking
 //@   perreturn
 //@   dyncalls-pure
 //@   on dealer
@@ -750,11 +771,14 @@ package router
 //@   sendsite invocation : [receive-progress] "receive_progress" in m.(*wamp.Invocation).Details ==> old(isNewCall(d, caller, msg)) && optTrue(msg.Options, "receive_progress") && hasFeature(callee, "callee", "progressive_call_results") && hasFeature(callee, "callee", "call_canceling")
 //@   sendsite invocation : [receive-progress-granted] old(isNewCall(d, caller, msg)) && optTrue(msg.Options, "receive_progress") && hasFeature(callee, "callee", "progressive_call_results") && hasFeature(callee, "callee", "call_canceling") ==> "receive_progress" in m.(*wamp.Invocation).Details && m.(*wamp.Invocation).Details["receive_progress"] == box(true)
 //@   sendsite invocation : [caller-disclosed-only-if-allowed] "caller" in m.(*wamp.Invocation).Details ==> reg.disclose || (optTrue(msg.Options, "disclose_me") && d.allowDisclose && hasFeature(callee, "callee", "caller_identification"))
+//@   sendsite invocation : [disallowed-disclose-me-not-delivered] old(isNewCall(d, caller, msg)) && !reg.disclose && optTrue(msg.Options, "disclose_me") ==> d.allowDisclose
+//@   callsite WithTimeout : [router-timer-only-when-timeout-not-forwarded] callerTimeout > 0 && timeout == callerTimeout && !(hasFeature(callee, "callee", "call_timeout") && reg.forwardTimeout)
 //@   sendsite invocation : [timeout-forwarded-only-if-handled] "timeout" in m.(*wamp.Invocation).Details ==> old(isNewCall(d, caller, msg)) && hasFeature(callee, "callee", "call_timeout") && reg.forwardTimeout
 
 //@ pred dealerIndexExcept(d *dealer, x *wamp.Session) = (forall c *wamp.Session, i wamp.ID :: c != x && c in d.calleeRegIDSet && i in d.calleeRegIDSet[c] ==> i in d.registrations && calleeOf(d.registrations[i], c)) && (forall i wamp.ID, k mathint :: i in d.registrations && 0 <= k && k < len(d.registrations[i].callees) && d.registrations[i].callees[k] != x ==> calleeOf(d.registrations[i], d.registrations[i].callees[k]) && d.registrations[i].callees[k] in d.calleeRegIDSet && i in d.calleeRegIDSet[d.registrations[i].callees[k]]) && dealerIndexAlloc(d)
 
 //@ func (d *dealer) syncRemoveSession
+//@   nonblocking
 //@   dyncalls-pure
 //@   perreturn
 //@   on dealer
@@ -961,7 +985,8 @@ package router
 //@ pred wfMessage(m wamp.Message) = !isnil(m) && (is(m, *wamp.Publish) ==> m.(*wamp.Publish) != nil) && (is(m, *wamp.Subscribe) ==> m.(*wamp.Subscribe) != nil) && (is(m, *wamp.Unsubscribe) ==> m.(*wamp.Unsubscribe) != nil) && (is(m, *wamp.Register) ==> m.(*wamp.Register) != nil) && (is(m, *wamp.Unregister) ==> m.(*wamp.Unregister) != nil) && (is(m, *wamp.Call) ==> m.(*wamp.Call) != nil) && (is(m, *wamp.Cancel) ==> m.(*wamp.Cancel) != nil) && (is(m, *wamp.Yield) ==> m.(*wamp.Yield) != nil) && (is(m, *wamp.Error) ==> m.(*wamp.Error) != nil) && (is(m, *wamp.Goodbye) ==> m.(*wamp.Goodbye) != nil)
 
 //@ func (r *realm) handleInboundMessages
-//@   props C10
+//@   props C05 C10
+//@   returnsite : [shutdown-only-for-the-realms-own-goodbye] result0 ==> goodbye == shutdownGoodbye || goodbye == wamp.NoGoodbye
 //@   requires r != nil && r.broker != nil && r.dealer != nil && !isnil(r.log) && !isnil(r.broker.log) && !isnil(r.dealer.log) && r.broker.filterFactory != nil && sess != nil && !isnil(sess.Peer)
 //@   recvsite : [peers-deliver-well-formed-messages] assume wfMessage(m)
 //@   callsite Goodbye : [goodbye-set-before-done-closes] assume-after result != nil
@@ -976,3 +1001,98 @@ package router
 //@   callsite error : [gate] arg1 == sess && (isnil(r.authorizer) || sess == r.metaSess || authzAllowed(r, sess, box(arg2))) && arg2.Type == wamp.INVOCATION
 //@   callsite publish : [routed-to-own-realm] arg0 == r.broker
 //@   callsite call : [routed-to-own-realm] arg0 == r.dealer
+
+// ---------------------------------------------------------------------------
+// Router: attaching clients
+
+//@ owned router router
+//@ immutable router actionChan, stopped, realms, realmTemplate, log, debug, stopMemStats, memStatsStopped
+
+//@ func (r *realm) authClient
+//@   props C09
+//@   requires r != nil && !isnil(client)
+//@   dyncalls-pure
+//@   ensures [welcome-or-error] isnil(result1) ==> result0 != nil && result0.Details != nil
+//@   callsite Authenticate : [authenticator-of-this-realm-for-an-offered-method] arg1 == sid && arg3 == client
+//@   returnsite : [welcome-only-if-local-or-authenticated] isnil(result1) ==> result0 != nil && ((method(client, "IsLocal") && !r.localAuth) || (!isnil(authr) && isnil(err)))
+//@   returnsite : [authmethod-set-by-router] isnil(result1) && !(method(client, "IsLocal") && !r.localAuth) ==> "authmethod" in result0.Details && result0.Details["authmethod"] == box(method)
+
+//@ func (r *router) AttachClient
+//@   props C09 C11
+//@   perreturn
+//@   requires r != nil && !isnil(client) && !isnil(r.log)
+//@   callcount authClient arg1
+//@   callcount handleSession arg1
+//@   recvsite : assume [realm-chosen-on-router-goroutine] isnil(m) ==> realm != nil
+//@   recvsite : stable realm err
+//@   callsite authClient : [authenticated-under-the-router-assigned-id] arg1 == sid && arg2 == client && arg0 == realm
+//@   callsite handleSession : [attached-only-after-authentication] isnil(err) && welcome != nil
+//@   callsite handleSession : [authenticated-once-under-this-id] calls(authClient, sid) == old(calls(authClient, sid)) + 1
+//@   callsite handleSession : [welcome-carries-the-router-assigned-id] welcome.ID == sid
+//@   callsite handleSession : [hello-complete] hello != nil && string(hello.Realm) != "" && rolesOK
+//@   callsite handleSession : [attached-to-the-realm-that-authenticated] arg0 == realm && arg1 == sess
+//@   callsite handleSession : [identity-from-router-and-authenticator] sess.ID == sid && "session" in sess.Details && sess.Details["session"] == box(sid) && (forall k string :: k in welcome.Details && k != "roles" && k != "session" ==> k in sess.Details && sess.Details[k] == welcome.Details[k])
+//@   sendsite reply wamp.Message : [only-welcome-or-abort-to-this-client] (is(m, *wamp.Welcome) || is(m, *wamp.Abort)) && ch == method(client, "Send")
+//@   sendsite reply wamp.Message : [welcome-only-after-attach] is(m, *wamp.Welcome) ==> m.(*wamp.Welcome) == welcome && calls(handleSession, sess) == old(calls(handleSession, sess)) + 1
+//@   loop range hello.Details
+//@     invariant [alloc] sessDetails != nil
+//@   loop range welcome.Details
+//@     invariant [alloc] sessDetails != nil
+//@     invariant [welcome-wins] forall k string :: visited(k) && k != "roles" ==> k in sessDetails && sessDetails[k] == welcome.Details[k]
+
+//@ closure (r *router) AttachClient 1
+//@   props C09
+//@   captures !isnil(client) && r != nil && !isnil(r.log)
+//@   sendsite abort wamp.Message : [only-an-abort-to-this-client] is(m, *wamp.Abort) && ch == method(client, "Send")
+
+//@ closure (r *router) AttachClient 2
+//@   on router
+//@   props C11 C09
+//@   captures sync != nil && hello != nil && !isnil(sendAbort) && r != nil && !isnil(r.log)
+//@   sendsite result error : [realm-exists] isnil(m) ==> realm != nil
+//@   sendsite result error : [attach-only-to-the-requested-realm] isnil(m) ==> hello.Realm in r.realms && r.realms[hello.Realm] == realm
+//@   sendsite result error : [not-while-closing] isnil(m) ==> !r.closed
+
+//@ func (r *realm) handleSession
+//@   requires r != nil && sess != nil
+
+// Every realm registered with the router is a real realm.
+//@ mapinv map[wamp.URI]*router.realm : v != nil
+
+//@ func newRealm
+//@   partial
+//@   requires broker != nil && dealer != nil && !isnil(logger)
+//@   ensures [realm-or-error] isnil(result1) ==> result0 != nil
+
+//@ func (r *router) addRealm
+//@   on router
+//@   props C11
+//@   requires r != nil && config != nil && r.realms != nil && !isnil(r.log)
+//@   ensures [added-under-its-uri] isnil(result1) ==> result0 != nil && old(config.URI) in r.realms && r.realms[old(config.URI)] == result0
+
+//@ func newBroker
+//@   partial
+//@   ensures [broker-or-error] isnil(result1) ==> result0 != nil
+
+//@ func newDealer
+//@   partial
+//@   requires !isnil(logger)
+//@   ensures [dealer] result != nil
+
+// A realm configuration's URI is fixed once the configuration is handed over.
+//@ immutable RealmConfig URI
+
+// Leaving: the realm goroutine drops the client entry and testaments and has
+// the dealer and broker remove the session, unless the whole realm shuts down.
+//@ closure (r *realm) onLeave 1
+//@   props C05
+//@   captures sess != nil && sync != nil && r != nil && r.dealer != nil && r.broker != nil && r.clients != nil && r.testaments != nil
+//@   callcount removeSession arg1
+//@   returnsite : [session-removed-from-dealer-and-broker-unless-realm-shuts-down] !shutdown ==> calls(removeSession, sess) == old(calls(removeSession, sess)) + 2
+//@   callsite (*router.dealer).removeSession : [client-entry-and-testaments-dropped-first] !(sess.ID in r.clients) && !(sess.ID in r.testaments)
+
+//@ closure (r *realm) handleSession 1
+//@   props C05
+//@   captures r != nil && sess != nil && !isnil(sess.Peer)
+//@   partial
+//@   callsite onLeave : [leave-with-the-handlers-verdict] arg1 == sess && arg2 == shutdown && arg3 == killAll
